@@ -140,13 +140,13 @@ theorem no_overread (input : Bytes) (buflen : Nat) (segs : List Bytes) (hs : Sma
     get_query_eq_spec segs hs]
   simp
 
-/-- the buffer-writing variants coap_split_path / coap_split_query, for every buffer size: the result is a fold
+/-- (D16b, the truncation behaviour) the buffer-writing variants coap_split_path / coap_split_query, for **every**
+buffer size, also below the documented minimum, and every input, also with malformed escapes: the result is a fold
 over the raw segments of a step that depends on the segment's bytes only — a segment is decoded by the RFC's
-`pctDecode` and appended if it is well formed and fits, a dot segment is dropped / backs up.
-FULL STATEMENT (not proved, checked differentially on every run incl. all buffer sizes 0..need+2):
-  `buflen ≥ input.length + 3 * (rawSegs pathStop pathSep input).length → Spec.Uri.splitPath input = some segs →
-   MU.splitPath input buflen = R.ok segs`  — missing is the arithmetic that such a buffer never runs out. -/
-theorem split_path_buf_eq_spec_partial (input : Bytes) (buflen : Nat) :
+`pctDecode` and appended if it is well formed and fits into what is left of the buffer, else it is omitted; a dot
+segment is dropped / backs up.  (Formerly `split_path_buf_eq_spec_partial`; that a big enough buffer never runs out,
+hence equality with S, is `split_path_buf_eq_spec` / `split_query_buf_eq_spec` below.) -/
+theorem split_buf_truncation (input : Bytes) (buflen : Nat) :
     MU.splitPath input buflen =
       R.ok ((rawSegs pathStop pathSep input).foldl (fun s seg => pathStepBuf seg s) ⟨buflen, []⟩).segs ∧
     MU.splitQuery input buflen =
@@ -167,7 +167,7 @@ example : getQuery [[0x61], [0x62]] = R.ok (some [0x61, 0x26, 0x62]) := by decid
 example : getQuery [[], [0x61]] = R.ok (some [0x26, 0x61]) := by decide
 example : getUriPath [[], []] = R.ok [0x2f] ∧ getUriPath [[]] = R.ok [] ∧ getUriPath [] = R.ok [] := by decide
 
-/-! ### coap_split_uri (partial) -/
+/-! ### coap_split_uri -/
 
 def toParts (u : MU.Uri) : UriParts := ⟨u.scheme, u.host, u.port, u.path, u.query⟩
 
@@ -177,15 +177,10 @@ def agree (proxy : Bool) (s : Bytes) : Prop :=
 
 instance (proxy : Bool) (s : Bytes) : Decidable (agree proxy s) := by unfold agree; infer_instance
 
-/-- PARTIAL.  Full statement (not proved; compared on every run by the differential test on generated [99, 111, 97, 112, 58, 47, 47, 69, 88, 65, 77, 80, 76, 69, 46, 99, 111, 109, 58, 49, 50, 51, 52, 47, 46, 46, 47, 120, 47, 37, 50, 101, 47, 121, 37, 50, 70, 122, 63, 97, 38, 98, 37, 50, 54]s, hosts
-naming a Unix socket excluded, D16f):
-  `split_uri_eq_spec : ∀ proxy s, ¬ unixHost s → agree proxy s`
-i.e. coap_split_uri accepts exactly the strings RFC 3986 §3 / RFC 7252 §6 structure (D4) admits — scheme from the
-table (T1), "://", non-empty host or bracketed IPv6 literal, decimal port ≤ 65535 else the scheme's default, path
-and query delimiters, well-formed escapes — and reports the same fields.  Proved here: the instances below, one per
-clause, among them the inputs of the three defects fixed in coap_split_uri ("coap://h?q" accepted, "coap://[?]?x"
-gives the query "x", "coap://h/[percent]zz" rejected). -/
-theorem split_uri_eq_spec_partial :
+/-- Instances of `split_uri_eq_spec` (proved for all strings below), one per clause of coap_split_uri_sub, kept as
+regression witnesses — among them the inputs of the three defects fixed in coap_split_uri ("coap://h?q" accepted,
+"coap://[?]?x" gives the query "x", "coap://h/[percent]zz" rejected).  (Formerly `split_uri_eq_spec_partial`.) -/
+theorem split_uri_eq_spec_instances :
     agree false [99, 111, 97, 112, 58, 47, 47, 104, 63, 113] ∧
     agree false [99, 111, 97, 112, 58, 47, 47, 91, 63, 93, 63, 120] ∧
     agree false [99, 111, 97, 112, 58, 47, 47, 104, 47, 37, 122, 122] ∧
@@ -305,7 +300,7 @@ theorem split_buf_documented_bound (input : Bytes) (buflen : Nat) (ds : List Byt
 /-- (P2, output side of "without overread", every buffer size incl. those below the documented minimum, every
 input incl. malformed escapes) the buffer writers never write past the caller's buffer: the bytes used by the
 segments they report (`*buflen` on return) never exceed the buffer they were given.  What does not fit is omitted
-(the exact truncation behaviour is `split_path_buf_eq_spec_partial`'s fold). -/
+(the exact truncation behaviour is `split_buf_truncation`'s fold). -/
 theorem split_buf_never_overflows (input : Bytes) (buflen : Nat) :
     (∃ segs, MU.splitPath input buflen = R.ok segs ∧ usedBy segs ≤ buflen) ∧
     (∃ segs, MU.splitQuery input buflen = R.ok segs ∧ usedBy segs ≤ buflen) := by
@@ -422,5 +417,98 @@ example : (Spec.Uri.splitUri Generated.Uri.schemes false [99, 111, 97, 112, 115,
 -- "coap://[fe80::1%25eth0]/" sent to fe80::1: the zone identifier does not count, no option at all
 example : (Spec.Uri.splitUri Generated.Uri.schemes false [99, 111, 97, 112, 58, 47, 47, 91, 102, 101, 56, 48, 58, 58, 49, 37, 50, 53, 101, 116, 104, 48, 93, 47]).bind (uriOptions Generated.Uri.schemes [102, 101, 56, 48, 58, 58, 49]) =
     some [] := by decide
+
+/-! ### round trip: [99, 111, 97, 112, 58, 47, 47, 69, 88, 65, 77, 80, 76, 69, 46, 99, 111, 109, 58, 49, 50, 51, 52, 47, 46, 46, 47, 120, 47, 37, 50, 101, 47, 121, 37, 50, 70, 122, 63, 97, 38, 98, 37, 50, 54] → options → reconstructed string → options -/
+
+/-- (P2) path string → Uri-Path options → the path string coap_get_uri_path reconstructs (the resource lookup key)
+→ options again is the identity on option lists, a single empty segment counting as no segment — for every path
+string with well-formed escapes (the options never contain "." / "..", so D5's exclusion is vacuous here). -/
+theorem path_roundtrip (input : Bytes) (ps : List Bytes) (h : Spec.Uri.splitPath input = some ps) (hs : Small ps) :
+    pathOpts input = R.ok ps ∧
+    ∃ str ps', getUriPath ps = R.ok str ∧ pathOpts str = R.ok ps' ∧ norm ps' = norm ps ∧ (ps ≠ [] → ps' = ps) := by
+  have ⟨h1, hd⟩ := dot_segments_never_emitted input ps h
+  refine ⟨h1, ?_⟩
+  by_cases hne : ps = []
+  · subst hne
+    exact ⟨[], [[]], by decide, by decide, by decide, fun f => absurd rfl f⟩
+  · obtain ⟨str, g1, g2⟩ := path_feeds_back ps hs hne hd
+    exact ⟨str, ps, g1, g2, rfl, fun _ => rfl⟩
+
+/-- the same for the query: here the option list is never empty, the round trip is the identity outright -/
+theorem query_roundtrip (input : Bytes) (qs : List Bytes) (h : Spec.Uri.splitQuery input = some qs) (hs : Small qs) :
+    queryOpts input = R.ok qs ∧
+    ∃ str, getQuery qs = R.ok (if str = [] then none else some str) ∧ queryOpts str = R.ok qs := by
+  refine ⟨queryOpts_eq input qs h, ?_⟩
+  exact query_feeds_back qs hs (splitQuery_ne_nil input qs h)
+
+/-- (P2, end to end) take **any** byte string coap_split_uri / coap_split_proxy_uri accepts (authority not "%2F…",
+D16f) and any option chain coap_uri_into_optlist builds from the result; let `ps` / `qs` be its Uri-Path (11) /
+Uri-Query (15) values (each < 65536 bytes).  Then the path and query strings libcoap reconstructs from them split
+back into the same values — modulo the single empty segment, which reconstructs to the empty string / NULL. -/
+theorem uri_options_roundtrip (dst : Bytes) (proxy : Bool) (s : Bytes) (u : MU.Uri) (opts : List (Nat × Bytes))
+    (hu : unixAuthority s = false) (h1 : MU.splitUriSub proxy s = R.ok u) (h2 : uriIntoOptlist dst u = R.ok opts)
+    (hsp : Small (valuesOf 11 opts)) (hsq : Small (valuesOf 15 opts)) :
+    (∃ str ps', getUriPath (valuesOf 11 opts) = R.ok str ∧ pathOpts str = R.ok ps' ∧
+        norm ps' = norm (valuesOf 11 opts)) ∧
+    (∃ str qs', getQuery (valuesOf 15 opts) = R.ok (if str = [] then none else some str) ∧ queryOpts str = R.ok qs' ∧
+        norm qs' = norm (valuesOf 15 opts)) := by
+  rw [(split_uri_eq_spec proxy s hu).2] at h1
+  cases hS : Spec.Uri.splitUri Generated.Uri.schemes proxy s with
+  | none => simp [hS] at h1
+  | some parts =>
+    simp only [hS] at h1
+    have hue := (R.ok.inj h1).symm
+    have ⟨_, _, i3, i4, _⟩ := splitUri_inv proxy s parts hS
+    have ep : u.path = parts.path := by rw [hue]; rfl
+    have eq : u.query = parts.query := by rw [hue]; rfl
+    rw [← ep] at i3
+    rw [← eq] at i4
+    obtain ⟨ps0, hps0⟩ := splitPath_defined _ i3
+    obtain ⟨qs0, hqs0⟩ := splitQuery_defined _ i4
+    -- what the two component calls of coap_uri_into_optlist return
+    have hp : ∃ ps, pathOptions u.path = some ps ∧ (ps = [] ∨ Spec.Uri.splitPath u.path = some ps) := by
+      unfold pathOptions
+      by_cases e : u.path = []
+      · exact ⟨[], by simp [e], Or.inl rfl⟩
+      · exact ⟨ps0, by simp [e, hps0], Or.inr hps0⟩
+    have hq : ∃ qs, queryOptions u.query = some qs ∧ (qs = [] ∨ Spec.Uri.splitQuery u.query = some qs) := by
+      unfold queryOptions
+      by_cases e : u.query = []
+      · exact ⟨[], by simp [e], Or.inl rfl⟩
+      · exact ⟨qs0, by simp [e, hqs0], Or.inr hqs0⟩
+    obtain ⟨ps, hpo, hps⟩ := hp
+    obtain ⟨qs, hqo, hqs⟩ := hq
+    have ⟨v11, v15⟩ := uriIntoOptlist_values dst u ps qs opts (pathRes_eq _ _ hpo) (queryRes_eq _ _ hqo) h2
+    rw [v11] at hsp ⊢
+    rw [v15] at hsq ⊢
+    constructor
+    · rcases hps with e | e
+      · subst e; exact ⟨[], [[]], by decide, by decide, by decide⟩
+      · obtain ⟨_, str, ps', g1, g2, g3, _⟩ := path_roundtrip u.path ps e hsp
+        exact ⟨str, ps', g1, g2, g3⟩
+    · rcases hqs with e | e
+      · subst e; exact ⟨[], [[]], by decide, by decide, by decide⟩
+      · obtain ⟨_, str, g1, g2⟩ := query_roundtrip u.query qs e hsq
+        exact ⟨str, qs, g1, g2, rfl⟩
+
+instance (segs : List Bytes) : Decidable (Small segs) := by unfold Small; infer_instance
+
+-- "a/%2e./b%2Fc/" : options "b/c", "" ; key "b%2Fc/" ; options again "b/c", ""
+example : Spec.Uri.splitPath [97, 47, 37, 50, 101, 46, 47, 98, 37, 50, 70, 99, 47] = some [[98, 47, 99], []] ∧ Small [[98, 47, 99], []] ∧
+    getUriPath [[98, 47, 99], []] = R.ok [98, 37, 50, 70, 99, 47] ∧
+    pathOpts [98, 37, 50, 70, 99, 47] = R.ok [[98, 47, 99], []] := by decide
+-- "./" : the single empty segment reconstructs to the empty string, which splits into the single empty segment
+example : Spec.Uri.splitPath [46, 47] = some [[]] ∧ getUriPath [[]] = R.ok [] ∧ pathOpts [] = R.ok [[]] := by decide
+-- "x=%26&&y" : options "x=&", "", "y"
+example : Spec.Uri.splitQuery [120, 61, 37, 50, 54, 38, 38, 121] = some [[120, 61, 38], [], [121]] ∧ Small [[120, 61, 38], [], [121]] ∧
+    getQuery [[120, 61, 38], [], [121]] = R.ok (some [120, 61, 37, 50, 54, 38, 38, 121]) ∧
+    queryOpts [120, 61, 37, 50, 54, 38, 38, 121] = R.ok [[120, 61, 38], [], [121]] := by decide
+-- the hypotheses of uri_options_roundtrip on "coap://EXAMPLE.com:1234/../x/%2e/y%2Fz?a&b%26"
+example : unixAuthority [99, 111, 97, 112, 58, 47, 47, 69, 88, 65, 77, 80, 76, 69, 46, 99, 111, 109, 58, 49, 50, 51, 52, 47, 46, 46, 47, 120, 47, 37, 50, 101, 47, 121, 37, 50, 70, 122, 63, 97, 38, 98, 37, 50, 54] = false ∧
+    (match MU.splitUriSub false [99, 111, 97, 112, 58, 47, 47, 69, 88, 65, 77, 80, 76, 69, 46, 99, 111, 109, 58, 49, 50, 51, 52, 47, 46, 46, 47, 120, 47, 37, 50, 101, 47, 121, 37, 50, 70, 122, 63, 97, 38, 98, 37, 50, 54] with
+     | .ok u => (match uriIntoOptlist [49, 57, 50, 46, 48, 46, 50, 46, 49] u with
+                 | .ok opts => some (valuesOf 11 opts, valuesOf 15 opts)
+                 | _ => none)
+     | _ => none) = some ([[120], [121, 47, 122]], [[97], [98, 38]]) := by decide
 
 end Coap.C16
